@@ -243,7 +243,7 @@ def describe(check, e, st):
     if check.startswith("dump_") or check.startswith("stored_"):
         bits.append("store dump %s" % json.dumps([{"st": d["st"], "pl": d["pl"], "h": [[h["k"], h["v"]] for h in d["h"]], "leak": d["leak"]}
                                                   for d in e.get("dump", [])])[:800])
-    return "; ".join(bits)
+    return "; ".join(bits)[:1500]
 
 
 def run_one(ctx, sched, tag):
@@ -253,40 +253,47 @@ def run_one(ctx, sched, tag):
     return collect_fails(res), files
 
 
+def roots(fails):
+    """First divergence of every failing journey: {signature: (sig, check, event, start, line)} in order of appearance.
+    Everything after the first divergence of a journey is a consequence of it (a wrongly stored header fails at every later
+    observation point as well), so only the root is reported."""
+    first = collections.OrderedDict()
+    for f in fails:
+        first.setdefault(f[3].get("name"), f)
+    by_sig = collections.OrderedDict()
+    for f in first.values():
+        by_sig.setdefault(f[0], f)
+    return by_sig, len(first)
+
+
 def triage(ctx, results, scheds, max_sigs=12):
     fails = collect_fails(results)
     if not fails:
         return
     by_name = {s["name"]: s for s in scheds}
-    by_sig = collections.OrderedDict()
-    for f in fails:
-        by_sig.setdefault(f[0], f)
+    by_sig, njourneys = roots(fails)
     ctx.count("tv_fail_lines", len(fails))
-    done = set()
+    ctx.count("tv_failing_journeys", njourneys)
     for k, (sig, check, e, st, line) in enumerate(by_sig.values()):
         if k >= max_sigs:
-            ctx.notes.append("%d further divergence signatures not reproduced individually" % (len(by_sig) - max_sigs))
+            ctx.notes.append("%d further divergence signatures not reproduced individually: %s" % (
+                len(by_sig) - max_sigs, ", ".join(list(by_sig)[max_sigs:max_sigs + 20])))
             break
-        if sig in done:
-            continue
         sched = by_name.get(st.get("name"))
         if sched is None:
             raise vf.Infra("cannot find schedule of failing journey %s" % st.get("name"))
         refails, _ = run_one(ctx, sched, "repro%d" % k)
-        resigs = collections.OrderedDict()
-        for f in refails:
-            resigs.setdefault(f[0], f)
+        resigs = [f[0] for f in refails]
         if sig not in resigs:
-            raise vf.Infra("divergence %s in journey %s did not reproduce (fresh run: %s)" % (sig, st.get("name"), list(resigs)[:5]))
-        for s2, (_, c2, e2, st2, line2) in resigs.items():
-            if s2 in done:
-                continue
-            done.add(s2)
-            if len(ctx.violations) >= 2 * max_sigs:
-                continue
-            vf.report(ctx, s2, describe(c2, e2, st2),
-                      {"schedule": sched, "seed": ctx.seed, "check": c2, "event": {k2: v for k2, v in e2.items() if k2 != "dump"},
-                       "dump": e2.get("dump"), "start": st2})
+            raise vf.Infra("divergence %s in journey %s did not reproduce (fresh run: %s)" % (sig, st.get("name"), resigs[:5]))
+        f2 = next(f for f in refails if f[0] == sig)
+        also = []
+        for x in resigs:
+            if x != sig and x not in also:
+                also.append(x)
+        vf.report(ctx, sig, describe(f2[1], f2[2], f2[3]) + ("; later in the same journey: " + ", ".join(also[:8]) if also else ""),
+                  {"schedule": sched, "seed": ctx.seed, "check": f2[1], "event": {k2: v for k2, v in f2[2].items() if k2 != "dump"},
+                   "dump": f2[2].get("dump"), "start": f2[3]})
 
 
 # ------------------------------------------------------------------ non-vacuity
@@ -500,13 +507,11 @@ def replay(ctx, path):
     if not fails:
         print("replay: trace accepted (no divergence)")
         return
-    seen = set()
-    for (sig, check, e, st, line) in fails:
-        if sig in seen:
-            continue
-        seen.add(sig)
-        print("line %d: %s" % (line, describe(check, e, st)))
-    sigs = [f[0] for f in fails]
+    sigs = []
+    for f in fails:
+        if f[0] not in sigs:
+            sigs.append(f[0])
     sig = obj["sig"] if obj.get("sig") in sigs else sigs[0]
     f = next(x for x in fails if x[0] == sig)
+    print("replay: %d failed checks, signatures in order: %s" % (len(fails), ", ".join(sigs[:12])))
     vf.report(ctx, sig, "replayed: " + describe(f[1], f[2], f[3]), {"schedule": obj["schedule"], "seed": ctx.seed})
